@@ -19,13 +19,9 @@ WIDE = {"i8": "i32", "i16": "i32", "i32": "i64", "i64": "i128", "u8": "i32", "u1
 
 
 def extract(ot):
-    var = TY_VARIANT[ot]
-    return ("let (rows, cols, data): (usize, usize, Vec<%s>) = match &v { Value::Matrix%s(m) => match m { "
-            "Matrix::RowDVector(o) => { let o = o.borrow(); (o.nrows(), o.ncols(), o.iter().cloned().collect()) }, "
-            "Matrix::DVector(o) => { let o = o.borrow(); (o.nrows(), o.ncols(), o.iter().cloned().collect()) }, "
-            "Matrix::DMatrix(o) => { let o = o.borrow(); (o.nrows(), o.ncols(), o.iter().cloned().collect()) }, "
-            "_ => { assert!(false, \"VP:wrong-result-kind\"); (0, 0, Vec::new()) } }, "
-            "_ => { assert!(false, \"VP:wrong-result-kind\"); (0, 0, Vec::new()) } };" % (ot, var))
+    """loop-free inspection of the result: rows, cols and rd(k)"""
+    from .c03 import extract as c03_extract
+    return c03_extract(ot, "")
 
 
 def gen_int(form, t, domain, tier):
@@ -55,12 +51,13 @@ def gen_int(form, t, domain, tier):
         b.append("    f.solve();")
         b.append("    let v = f.out();")
         b.append("    " + extract(t))
-        b.append("    assert!(rows == 1 && cols as %s == n && data.len() as %s == n, \"VP:wrong-length\");" % (w, w))
-        b.append("    let mut i = 0; let mut ok = true; while i < data.len() { if (data[i] as %s) != aw + (i as %s) * sw { ok = false; } i += 1; }" % (w, w))
+        b.append("    assert!(rows == 1 && cols as %s == n, \"VP:wrong-length\");" % w)
+        b.append("    let mut ok = true;")
+        for i_ in range(CAP):
+            b.append("    if %d < cols && (%d as %s) < n { if (rd(%d) as %s) != aw + (%d as %s) * sw { ok = false; } }" % (i_, i_, w, i_, w, i_, w))
         b.append("    assert!(ok, \"VP:wrong-element\");")
-        b.append("    f.solve(); let v2 = f.out();")
         b.append("    kani::cover!(true, \"VP:reached\");")
-        b.append("    forget(data); forget(v); forget(v2); forget(f);")
+        b.append("    forget(v); forget(f);")
         b.append("  }")
         b.append("}")
         desc = "%s on %s with mathematical length 1..%d: accepted, 1xn row vector, element i = start + i*step" % (fxn, t, CAP)
@@ -73,8 +70,8 @@ def gen_int(form, t, domain, tier):
         b.append("  Ok(f) => {")
         b.append("    let v = f.out();")
         b.append("    " + extract(t))
-        b.append("    assert!(data.len() == 0, \"VP:elements-for-empty-range\");")
-        b.append("    forget(data); forget(v); forget(f);")
+        b.append("    assert!(rows * cols == 0, \"VP:elements-for-empty-range\");")
+        b.append("    forget(v); forget(f);")
         b.append("  }")
         b.append("}")
         desc = "%s on %s when the progression has no term (zero step, wrong direction, start past end): error, panic or empty vector" % (fxn, t)
@@ -83,7 +80,9 @@ def gen_int(form, t, domain, tier):
           key="%s/%s/%s" % (form, t, domain), desc=desc,
           functions=["%s (machines/range/%s: size computation, output allocation)" % (fxn, relp), "Range*Scalar::solve/out via dyn MechFunction"],
           bounds="start, end%s: all values of %s with mathematical length %s" % (", step" if stepped else "", t, "1..%d" % CAP if domain == "accept" else "0"),
-          unwind=CAP + 3, tier=tier, group=form, solver="kissat")
+          unwind=CAP + 2, tier=tier, group=form, solver="kissat")
+    h.rec_limit = 1
+    h.heavy = True
     return h
 
 
@@ -97,8 +96,9 @@ def gen_float(form, t, tier):
     b.append("kani::assume(a >= -1000.0 && a <= 1000.0 && e >= -1000.0 && e <= 1000.0 && s >= 0.25 && s <= 1000.0);")
     # expected terms by repeated addition, at most CAP of them, and the (CAP+1)-th must already be outside
     cmp_ = "<=" if inclusive else "<"
-    b.append("let mut exp: [%s; %d] = [0.0; %d]; let mut n: usize = 0; let mut cur = a;" % (t, CAP + 1, CAP + 1))
-    b.append("while n < %d && cur %s e { exp[n] = cur; n += 1; cur = cur + s; }" % (CAP + 1, cmp_))
+    b.append("let mut exp: [%s; %d] = [0.0; %d]; let mut n: usize = 0; let mut cur = a; let mut open = true;" % (t, CAP + 1, CAP + 1))
+    for k in range(CAP + 1):
+        b.append("if open && cur %s e { exp[%d] = cur; n += 1; cur = cur + s; } else { open = false; }" % (cmp_, k))
     b.append("kani::assume(n >= 1 && n <= %d);" % CAP)
     args = "Value::%s(Ref::new(a)), %sValue::%s(Ref::new(e))" % (var, ("Value::%s(Ref::new(s)), " % var) if stepped else "", var)
     b.append("kani::cover!(n == 3, \"VP:reached-call\");")
@@ -108,18 +108,23 @@ def gen_float(form, t, tier):
     b.append("    f.solve();")
     b.append("    let v = f.out();")
     b.append("    " + extract(t))
-    b.append("    assert!(rows == 1 && cols == n && data.len() == n, \"VP:wrong-length\");")
-    b.append("    let mut i = 0; let mut ok = true; while i < data.len() && i < %d { if data[i].to_bits() != exp[i].to_bits() { ok = false; } i += 1; }" % (CAP + 1))
+    b.append("    assert!(rows == 1 && cols == n, \"VP:wrong-length\");")
+    b.append("    let mut ok = true;")
+    for i_ in range(CAP):
+        b.append("    if %d < cols && %d < n { if rd(%d).to_bits() != exp[%d].to_bits() { ok = false; } }" % (i_, i_, i_, i_))
     b.append("    assert!(ok, \"VP:wrong-element\");")
     b.append("    kani::cover!(true, \"VP:reached\");")
-    b.append("    forget(data); forget(v); forget(f);")
+    b.append("    forget(v); forget(f);")
     b.append("  }")
     b.append("}")
-    return H("c15_%s_%s_accept" % (form, t), "    " + "\n    ".join(b), (crate, relp), domain="accept", key="%s/%s/accept" % (form, t),
+    h = H("c15_%s_%s_accept" % (form, t), "    " + "\n    ".join(b), (crate, relp), domain="accept", key="%s/%s/accept" % (form, t),
              desc="%s on %s, start/end in [-1000,1000], step in [0.25,1000]: the vector holds exactly the terms a, a+s, ... that are %s end"
                   % (fxn, t, "<=" if inclusive else "<"),
              functions=["%s (machines/range/%s)" % (fxn, relp)], bounds="finite values in [-1000, 1000], 1..%d terms" % CAP,
-             unwind=CAP + 4, tier=tier, group=form, solver="kissat")
+             unwind=CAP + 2, tier=tier, group=form, solver="kissat")
+    h.rec_limit = 1
+    h.heavy = True
+    return h
 
 
 def plan(tier, seed):
